@@ -257,6 +257,9 @@ TByUri ==
   /\ Observed(Ev.obs)
 
 \* C14: vector search finds, for every embedding ever used, exactly the active frames carrying it
+\* the sketch track's candidate list: a read; what it returns is compared between the two executions of a history (TwinOk)
+TSketch == /\ IsEvent("sketch") /\ Read("sketch") /\ Chk("sketch.panic", ~Has(Ev.res, "panic")) /\ Observed(Ev.obs)
+
 TVecSet ==
   /\ IsEvent("vecset") /\ Read("vecset")
   /\ LET anyEmb == \E i \in 1..Len(Visible) : Visible[i].st = "active" /\ Visible[i].emb > 0 IN
@@ -351,7 +354,7 @@ TCorrupt ==
 
 TraceStep == \/ TReset \/ TCreate \/ TRefused \/ TSidecar \/ TCommit \/ TOpen \/ TOpenRO \/ TClose \/ TAbandon \/ TLegacy
              \/ TPut \/ TUpdate \/ TDelete \/ TVacuum \/ TTicket \/ TSignedTicket \/ TBindOnly \/ TBind \/ TUnbind \/ TBeginBatch \/ TEndBatch \/ TCommitSkip \/ TFinalize
-             \/ TTimeline \/ TByUri \/ TVecSet \/ TVerify \/ TDoctor
+             \/ TTimeline \/ TByUri \/ TVecSet \/ TSketch \/ TVerify \/ TDoctor
              \/ TBroken
 
 (* ----------------------- query events (query engine) ----------------------- *)
